@@ -2,7 +2,7 @@
 import itertools
 
 import wire
-from vlib import Case
+from vlib import Case, lang_lines
 
 # every case of this module is a direct operator / builtin / codec application whose size the oracle computes:
 # a "capacity overflow" panic is never excused here
@@ -31,6 +31,8 @@ def nontrivial(c):
 
 def classify(c):
     t = c.line.split(" ")
+    if t[0] == "eval":
+        return "same-object " + (c.extra or {}).get("v", "?")
     def kind(v):
         return v.split(":")[0].split("[")[0].split("{")[0]
     if t[0] == "op":
@@ -38,9 +40,32 @@ def classify(c):
     return f"un={t[1]} kind={kind(t[2])}"
 
 
+# both operands of a comparison are ONE object (a variable compared with itself, an alias, a parameter used twice): the result
+# must be what the operator gives for two equal values of that kind — in particular NaN != NaN also for the same NaN
+SAME_VALUES = ["inf - inf", "0.0", "-0.0", "0", "1", "-1", "9223372036854775807", "1.5", "inf", "-inf", "byte(7)", "'c'", "\"\"", "\"ab\"", "true", "false", "null"]
+
+
+def same_object_programs():
+    out = []
+    for v in SAME_VALUES:
+        numeric = not v.startswith(("'", "\"", "true", "false", "null"))
+        body = ["let obs = [];", "let inf = 1e308 * 10.;", f"let n = {v};", "let m = n;",
+                "fn same(x) { return x == x; }", "fn diff(x) { return x != x; }", "fn two(x, y) { return [x == y, x != y]; }",
+                "push(obs, n == n);", "push(obs, n != n);", "push(obs, m == n);", "push(obs, !(n == n));", "push(obs, same(n));", "push(obs, diff(n));", "push(obs, two(n, n));",
+                "push(obs, if n == n { 1 } else { 2 });"]
+        if numeric and not v.startswith("byte"):
+            body += ["push(obs, n >= n);", "push(obs, n <= n);", "push(obs, n > n);", "push(obs, n < n);", "push(obs, (n == n) == (n >= n && n <= n));"]
+        body.append("0")
+        out.append((v, "\n".join(body) + "\n"))
+    return out
+
+
 def cases(ctx):
     out = []
     rng = ctx.rng
+    progs = same_object_programs()
+    for (v, src), line in zip(progs, lang_lines(ctx, [p[1] for p in progs])):
+        out.append(Case(line, ("same-object",), extra={"src": src, "v": v}))
     small = {k: wire.pool(k) for k in wire.KINDS}
     # every operator x every ordered kind pair x pools (numeric pools pairwise-exhaustive)
     for op in OPS:
